@@ -14,7 +14,7 @@ RULE = ("Hypothesis draws a process set (general model grammar of C01) and two o
         "objects, list declarations, given order) and a variant with a generated route per process (Event, Event whose first member "
         "transition carries the rate, Transition with its own rate in event=, legacy transition=/birth_death= lists, incremental add_event / "
         "add_transition / add_birth_death), births re-declared by origin instead of destination and vice versa, space- or comma-separated "
-        "string declarations, and a generated permutation of the processes (in a quarter of the cases one process occurs twice), with the constructor arguments wrapped as lists, tuples, or (1 case in 4) a lone "
+        "string declarations or ODEVariable objects with a human readable name (transitions then name a state by its ID or by the object), and a generated permutation of the processes (in a quarter of the cases one process occurs twice), with the constructor arguments wrapped as lists, tuples, or (1 case in 4) a lone "
         "birth_death= / ode= entry handed over as the bare Transition object the setters accept; in a quarter of the cases the variant is built from Event / legacy Transition objects that already served to build (and evaluate) another model; plus the whole model entered as explicit ode= strings. "
         "Oracle (metamorphic): get_ode_eqn() of the variants differ by an expression that expands to 0 (30-digit numeric fallback), ode, "
         "jacobian and grad agree at 3 generated points (rtol 1e-10), eventRateVector and vMat agree up to the known permutation of events. "
@@ -88,7 +88,7 @@ def strategy(tier):
                     routes[i] = "add_legacy"
         return {"model": m, "routes": routes, "perm": perm, "container": container,
                 "shared_objects": draw(st.integers(0, 3)) == 0,
-                "state_style": draw(st.sampled_from(["list", "space", "comma", "tuples"])),
+                "state_style": draw(st.sampled_from(["list", "space", "comma", "tuples", "odevar"])),
                 "param_style": draw(st.sampled_from(["list", "space", "comma"])),
                 "flip_births": draw(st.booleans()),
                 "points": [draw(S.point(m)) for _ in range(3)]}
@@ -153,8 +153,8 @@ def oracle(case, rec):
         eq = call("C12/get_ode_eqn/" + name, case, mod.get_ode_eqn)
         if eq.shape != eq0.shape:
             raise PropertyViolation("C12/ode-shape/" + name, "ODE has shape %s vs %s" % (eq.shape, eq0.shape), case)
-        if [str(s) for s in mod.state_list] != [str(s) for s in base.state_list] or \
-                [str(p) for p in mod.param_list] != [str(p) for p in base.param_list]:
+        if [s.ID for s in mod.state_list] != [s.ID for s in base.state_list] or \
+                [p.ID for p in mod.param_list] != [p.ID for p in base.param_list]:
             raise PropertyViolation("C12/declarations/" + name, "states %s / params %s differ from baseline %s / %s" % (
                 mod.state_list, mod.param_list, base.state_list, base.param_list), case)
         for i in range(n_s):
